@@ -487,7 +487,39 @@ def r7(ctx):
     ctx.floor(R, 3)
 
 
+def r8(ctx):
+    R = "C16-R8"
+    ctx.rule(R, "every host gets the configured limits: the KernelConfig a Net / Fabric was built with (Fabric::default_cfg: mtu, send_buf_cap, "
+                "recv_buf_cap, ..) is stored by the constructor and afterwards only read - each Kernel::with_config receives a copy. Moving "
+                "it out (mem::take / replace, a `&mut` borrow, an assignment) gives the first host the caps and every later host the defaults")
+    F = "turmoil_net::fabric::Fabric::default_cfg"
+    n = 0
+    bad = []
+    for b in sorted(ctx.w.bodies.values(), key=lambda x: x.id):
+        if b.crate != "turmoil_net":
+            continue
+        for bb, i, st in b.all_stmts():
+            if i == "term":
+                continue
+            r = st["r"]
+            if r["k"] == "ref" and F in place_fields(r["p"]):
+                n += 1
+                if r["bk"] == "mut":
+                    bad.append((b.id, st["s"], "borrows it mutably"))
+            if F in place_fields(st["p"]) and not b.id.endswith(("::new", "::with_config")):
+                n += 1
+                bad.append((b.id, st["s"], "assigns to it"))
+            if r["k"] == "use" and isinstance(r.get("o"), dict) and r["o"].get("m") and F in place_fields(r["o"]["m"]):
+                n += 1
+                bad.append((b.id, st["s"], "moves it out"))
+    ctx.inst(R, "fabric:config-only-read", n > 0 and not bad, bad[0][1] if bad else "", "the fabric's KernelConfig is only read (cloned) after construction" if n and not bad else
+             (f"`{bad[0][0]}` {bad[0][2]} (Fabric::default_cfg): after the first add_host the fabric holds KernelConfig::default() - hosts added later ignore the configured mtu / buffer caps "
+              "(a 600-byte-mtu net emits 1460-byte segments, a 2 KiB receive cap queues 32 KiB)" if bad else "no read of Fabric::default_cfg found: re-derive"))
+    ctx.floor(R, 1)
+
+
 def run(ctx):
+    r8(ctx)
     r7(ctx)
     r6(ctx)
     r1(ctx)
